@@ -367,6 +367,29 @@ Proof.
   - intros [H1 H2]. exact (filterR_complete _ _ _ Ef h H1 H2).
 Qed.
 
+(* away from the limits refilter keeps exactly the hits a fresh run with the new limits keeps *)
+Lemma hit_passes_as_fresh_run max_evalue min_score h s e :
+  as_num (hit_field K_score h) = Ok s -> as_num (hit_field K_evalue h) = Ok e ->
+  qeq s min_score = false -> qeq e max_evalue = false ->
+  hit_passes max_evalue min_score h = Ok (fresh_run_keeps max_evalue min_score s e).
+Proof.
+  intros Hs He Ns Ne. unfold hit_passes, fresh_run_keeps. rewrite Hs. cbn [bind].
+  assert (A : qle min_score s = negb (qle s min_score)) by (unfold qle, qeq in *; lia).
+  assert (B : qle e max_evalue = negb (qle max_evalue e)) by (unfold qle, qeq in *; lia).
+  rewrite A. destruct (qle s min_score); cbn [negb orb]; [reflexivity|]. rewrite He. cbn [bind]. rewrite B. reflexivity.
+Qed.
+
+(* on a limit it keeps a hit that a fresh run drops (finding FC11b) *)
+Lemma hit_passes_on_limit_differs : exists max_evalue min_score h s e,
+  as_num (hit_field K_score h) = Ok s /\ as_num (hit_field K_evalue h) = Ok e /\
+  hit_passes max_evalue min_score h = Ok true /\ fresh_run_keeps max_evalue min_score s e = false.
+Proof.
+  exists (1, 10000), (25, 1),
+         (map (fun k => if list_eq_dec Z.eq_dec k K_score then JFlt 25 1 else if list_eq_dec Z.eq_dec k K_evalue then JFlt 1 100000 else JNull) hit_fields),
+         (25, 1), (1, 100000).
+  vm_compute. repeat split; reflexivity.
+Qed.
+
 Lemma refilter_lenient max_evalue min_score r :
   qlt (hr_evalue r) max_evalue = true \/ qlt min_score (hr_score r) = true ->
   refilter max_evalue min_score r = Err E_Value.
